@@ -38,7 +38,10 @@ static bool num_c10(const Val& w, const Val& g) {
   if (w.k == Val::Int) return g.k == Val::Int && w.neg == g.neg && w.mag == g.mag;
   if (g.k != Val::Flt) return false;
   if (std::isnan(w.d)) return std::isnan(g.d);
-  if (std::isinf(w.d)) return g.d == w.d;
+  // a digit literal that strtod rounds to infinity lies within half an ulp of DBL_MAX or beyond: the
+  // largest finite values are as acceptable as infinity there (C12 judges that window); the keyword
+  // Infinity (no literal attached) must give infinity
+  if (std::isinf(w.d)) return g.d == w.d || (!w.s.empty() && (g.d < 0) == (w.d < 0) && fabs(g.d) > 1e300);
   long double ax = fabsl((long double)w.d);
   if (ax == 0) return g.d == 0;
   if (ax < 1e-300L || ax > 1e300L) return true;
